@@ -134,6 +134,10 @@ func zooCases(thorough bool) []zooCase {
 			"CREATE TABLE z (a, b TEXT COLLATE NOCASE, c, d, PRIMARY KEY (c, b DESC), UNIQUE (b COLLATE BINARY, a DESC))",
 			"CREATE TABLE z (a INT PRIMARY KEY, b, c, d, UNIQUE (d DESC, c))",
 			"CREATE TABLE z (a, b, c PRIMARY KEY DESC UNIQUE, d UNIQUE)",
+			// the primary key shares the index of a UNIQUE constraint written before it
+			"CREATE TABLE z (a, b TEXT UNIQUE, c, d, PRIMARY KEY (b), UNIQUE (c))",
+			"CREATE TABLE z (a, b, c, d, UNIQUE (b, c), PRIMARY KEY (b, c), UNIQUE (d))",
+			"CREATE TABLE z (a, b UNIQUE, c UNIQUE, d, PRIMARY KEY (c))",
 		} {
 			stmts := []string{def}
 			for i := 0; i < 14; i++ {
@@ -179,6 +183,9 @@ func zooCases(thorough bool) []zooCase {
 				for c := 0; c < 4; c++ {
 					stmts = append(stmts, fmt.Sprintf("CREATE INDEX zp%d ON z (%s%s) WHERE %s", c, names[c], mods[(c*2+pi)%len(mods)], []string{"b <> 'k1'", "c > 10", "d <> 'd2'", "a > 0"}[c]))
 				}
+				// an index that names a primary key column twice, the first time under another collation than the key's
+				stmts = append(stmts, fmt.Sprintf("CREATE INDEX zd0 ON z (%s COLLATE NOCASE, %s)", names[pk[0]], names[pk[0]]),
+					fmt.Sprintf("CREATE INDEX zd1 ON z (d, %s COLLATE RTRIM DESC, %s, c)", names[pk[len(pk)-1]], names[pk[len(pk)-1]]))
 				// PK columns must be NOT NULL: use values without NULL for them
 				for i := 0; i < 14; i++ {
 					vals := []string{fmt.Sprint(i % 4), fmt.Sprintf("'k%d'", i%3), fmt.Sprint(20 - i), fmt.Sprintf("'d%d'", i%5)}
